@@ -85,15 +85,18 @@ PROPS = {
         "jobs": lambda tier: [
             J("prod", "c16", needs_repo_bins=["mlar"]),
             J("prod", "c16-symlink", needs_repo_bins=["mlar"]),
+            # "extracted beneath it with exactly their content", whole-archive form, members whose
+            # runs are separated by more than the writer pool's 1000 other members (shared with C12)
+            J("prod", "c12-cli", needs_repo_bins=["mlar"]),
         ],
         "rule": "c16: member-name sets from the path grammar: EVERY name of depth <= 2 (quick) / <= 3 (thorough) over 11 component kinds "
                 "('.', '..', normal, empty, unicode, 255 and 256 bytes, '...', absolute markers) x leading/trailing separator, "
                 "each together with a benign member, plus random sets of 1-4 names of depth <= 4; forms cycle over {linear, glob '*', one listed "
                 "name}; output directory argument relative/absolute, existing/absent. c16-symlink: output directory pre-populated with "
-                "out/link -> ../sibling, out/deep/l2 -> ../../sibling/keepdir, out/flink -> ../outside.txt; 30 (quick) / 120 (thorough) random sets of "
-                "1-4 of 19 member names routed through the links (existing and missing directories behind them, the links themselves, a link to a "
+                "out/link -> ../sibling, out/deep/l2 -> ../../sibling/keepdir, out/flink -> ../outside.txt, out/dlink -> ../nowhere.txt (dangling); 30 (quick) / 120 (thorough) random sets of "
+                "1-4 of 22 member names routed through the links (existing and missing directories behind them, the links themselves, a link to a "
                 "file used as a directory, '..' spellings) plus a benign member, random archive order, the three forms; every case is non-trivial; "
-                "distinct = distinct (set, form)",
+                "distinct = distinct (set, form); c12-cli: whole-archive extraction of 1001 / 1300 interleaved members, content compared",
         "exhaustive": {"quick": True, "thorough": True},
         "explanation": "theorems: on ANY model file system (directories, files, symbolic links with relative/absolute targets anywhere) both "
                        "extraction forms leave every regular file outside the output directory untouched and create none there, every touched "
